@@ -1,6 +1,6 @@
 """C18 - case recordings survive a crash at any point as a consistent prefix (DESIGN.md 4, C18; E4).
 
-Every crash point of four deterministic recording histories (H1-H4, defined in the helper) is
+Every crash point of five deterministic recording histories (H1-H5, defined in the helper) is
 enumerated:
 
 * statement level: every connect/execute/commit/__enter__/__exit__/close boundary of the recorder's
@@ -76,12 +76,13 @@ MIN_NONTRIVIAL = {'quick': 120, 'thorough': 800}
 CHUNK = 1
 CAP_S = {'thorough': int(os.environ.get('C18_CAP_S', '1700'))}
 
-HISTS = ['H1', 'H2', 'H3', 'H4']
-DBS = {'H1': ['h1.sql'], 'H2': ['h2_out/drv.sql', 'sys.sql'], 'H3': ['h3.sql'], 'H4': ['h4.sql']}
+HISTS = ['H1', 'H2', 'H3', 'H4', 'H5']
+DBS = {'H1': ['h1.sql'], 'H2': ['h2_out/drv.sql', 'sys.sql'], 'H3': ['h3.sql'], 'H4': ['h4.sql'],
+       'H5': ['h5.sql']}
 # size of the complete recordings (measured on the unchanged tree; guards against a vacuous
 # reference - an implementation that records nothing would make every crash file a "prefix")
 REF_NCASES = {'H1': {'h1.sql': 17}, 'H2': {'h2_out/drv.sql': 4, 'sys.sql': 6},
-              'H3': {'h3.sql': 9}, 'H4': {'h4.sql': 8}}
+              'H3': {'h3.sql': 9}, 'H4': {'h4.sql': 8}, 'H5': {'h5.sql': 3}}
 ALL_TABLES = ['driver_derivatives', 'driver_iterations', 'driver_metadata', 'global_iterations',
               'metadata', 'problem_cases', 'solver_iterations', 'solver_metadata',
               'system_iterations', 'system_metadata']
@@ -193,8 +194,8 @@ def _sys_plan(hist):
 #   'snap' = one process per batch that copies db + journal at each boundary (see the helper).
 # quick: real kills for H1 (all four kinds of recorder on one file), snapshots for H2-H4;
 # thorough: real kills for every history, plus the system-call level.
-STMT_MECH = {'quick': {'H1': 'stmt', 'H2': 'snap', 'H3': 'snap', 'H4': 'snap'},
-             'thorough': {'H1': 'stmt', 'H2': 'stmt', 'H3': 'stmt', 'H4': 'stmt'}}
+STMT_MECH = {'quick': {'H1': 'stmt', 'H2': 'snap', 'H3': 'snap', 'H4': 'snap', 'H5': 'snap'},
+             'thorough': {'H1': 'stmt', 'H2': 'stmt', 'H3': 'stmt', 'H4': 'stmt', 'H5': 'stmt'}}
 
 
 # A runner case is one *part* i of P of the crash points of (history, mechanism); the worker that
